@@ -23,7 +23,7 @@ from ..harness import Sim, TICK, stop
 PROPERTY = 'C06'
 LEVEL = 'fault_enumeration'
 LEVEL_TEXT = ("Exhaustive crash-point enumeration on the real code: every event history up to length "
-              "3 (quick) / 4 (thorough) over each block type's alphabet x sync_state x expiration; "
+              "3 (quick) / 4 (thorough) over each block type's alphabet (Input, Counter, timed FSM incl. rejected timed events, Timer, InputExp, TimeDate, TimeSpan; unknown / malformed events included) x sync_state x expiration; "
               "storage snapshot after init, after every event, after stop and after failed start-ups; "
               "each snapshot is compared with the live state and then used to restart a second circuit "
               "at crash time + every downtime class, which is compared with the recorded state.")
